@@ -396,7 +396,7 @@ def c05_plan(run, replay=None):
     run.load_inputs("robust.ndjson.inputs")
     run.validate_trace("RobustnessObs", "robust.ndjson", s["cases"], timeout=600)
     # 2. the wrong value in the wrong place (token level), static
-    for pool in (["C05q", "C05cyc"] if q else ["C05", "C05cyc", "C03stops", "C09pairs"]):
+    for pool in (["C05q", "C05cyc", "structure"] if q else ["C05", "C05cyc", "structure", "C03stops", "C09pairs"]):
         run.tlc("StaticMC", "ST_%s.cfg" % pool, "design", workers=16, cases_out="static.ndjson", timeout=2400)
     s = run.harness("static", ["-in", "static.ndjson", "-out", "static_obs.ndjson", "-seed", run.seed], timeout=3000)
     run.load_inputs("static_obs.ndjson.inputs")
@@ -428,9 +428,9 @@ ZONES = "nil,UTC,America/New_York,Asia/Kolkata,fixed+0545,Pacific/Auckland,fixed
 PLANS = {
     "C05": c05_plan,
     "C01": static_plan("C01", ["C01"], ["C01"], {"distinct_feeds": 200, "parses": 700}, large=True),
-    "C03": static_plan("C03", ["C03stops", "C03refs", "C05cyc"], ["C03stops", "C03refs", "C05cyc", "C09pairs"], {"distinct_feeds": 3000}, large=True),
+    "C03": static_plan("C03", ["C03stops", "C03refs", "C05cyc", "structure"], ["C03stops", "C03refs", "C05cyc", "structure", "C09pairs"], {"distinct_feeds": 3000}, large=True),
     "C08": static_plan("C08", ["C08", "C08files"], ["C08", "C08files", "C01"], {"distinct_feeds": 1000, "relations_judged": 1400}, large=True),
-    "C09": static_plan("C09", ["C09"], ["C09", "C09pairs"], {"distinct_feeds": 120, "relations_judged": 120}),
+    "C09": static_plan("C09", ["C09", "structure"], ["C09", "structure", "C09pairs"], {"distinct_feeds": 120, "relations_judged": 120}),
     "C10": static_plan("C10", ["C10"], ["C10"], {"distinct_feeds": 300, "relations_judged": 400}),
     "C11": static_plan("C11", ["C11q", "C11b"], ["C11", "C11b"], {"distinct_feeds": 2000}),
     "C18": c18_plan,
